@@ -2,7 +2,7 @@
     Only statements, each closed by [exact].  Model under [cfg_fixed]; [reach] = every history. *)
 From BX Require Import Model.Router Proofs.RouterProofs.
 From BX Require Import Base.Prelude Base.Fsm Model.TxFsm Model.TxMgr Model.Interchain Model.IbtpExec Model.IbtpMon Model.IbtpJudge
-     Proofs.IbtpInv Proofs.IbtpTimeout Proofs.IbtpBlock Proofs.IbtpProps Proofs.IbtpNotify.
+     Proofs.IbtpInv Proofs.IbtpTimeout Proofs.IbtpBlock Proofs.IbtpProps Proofs.IbtpNotify Proofs.IbtpRestart Proofs.IbtpGArm.
 From BX Require Import Proofs.IbtpMonProofs.
 Local Open Scope N_scope.
 
@@ -78,15 +78,47 @@ Theorem C06_group_fires : forall w st ops st' bm mid t2 g gi k s,
 Proof. exact c05_notify_timeout. Qed.
 Print Assumptions C06_group_fires.
 
-(** PARTIAL (C06_group): together with [C06_group_listed_is_begin] this gives "listed only at the group's
-    height while BEGIN, and then everything fires"; the converse for groups (a BEGIN group IS in the list
-    of its height until it leaves BEGIN) is not stated as a theorem — it is covered by the predicate
-    [c06_b] (a group that reaches its height must not stay BEGIN). *)
+(** the converse for groups: in every reachable state a group whose global status is BEGIN is in the
+    timeout list of its own timeout height, and that height is still ahead (invariant [GArm],
+    Proofs/IbtpGArm.v: registered by BeginMultiTXs, removed exactly when the group leaves BEGIN) *)
+Theorem C06_group_armed : forall w st g gi,
+  reach w st -> tm_glob (s_tm st) g = Some gi -> g_state gi = ST_BEGIN ->
+  s_h st < g_height gi /\ listed (s_tm st) (g_height gi) (TGid g).
+Proof. exact group_armed. Qed.
+Print Assumptions C06_group_armed.
 
-(** restart: everything the properties talk about lives in contract state; a restart keeps every
-    record, group, counter and every id-bearing timeout list (it only forgets empty lists that existed
-    solely in the node's cache), hence every pending timeout *)
-Theorem C06_restart_keeps_armed_partial : forall st i hh,
+(** ... so a group that is still BEGIN when the transactions of block [g_height] have run is read from
+    the list in that very block, every child is announced and the group becomes BEGIN_ROLLBACK *)
+Theorem C06_group : forall w st ops st' bm mid t2 g gi k s,
+  reach w st -> Forall (op_wf w) ops -> s_h st + 1 < W64 -> block_facts w st ops st' bm mid t2 ->
+  tm_glob (s_tm mid) g = Some gi -> g_state gi = ST_BEGIN -> g_height gi = s_h st + 1 ->
+  In (k, s) (g_children gi) ->
+  In k (m_timeout bm (chain_of w (fst (fst k)))) /\
+  (s = ST_SUCCESS -> In k (m_timeout bm (chain_of w (snd (fst k))))) /\
+  gstate (s_tm st') g = Some ST_BEGIN_ROLLBACK.
+Proof. exact group_timeout. Qed.
+Print Assumptions C06_group.
+
+(** restart: everything the properties talk about lives in contract state.  A restart at any reachable
+    state changes nothing that is observable in the rest of the history, whatever follows (blocks and
+    further restarts): all block results, counters, timeout announcements, statuses and stored lists
+    are equal ([run] returns the per-block observations).  Proof: two-run simulation through the whole
+    block function (Proofs/IbtpRestart.v); the only thing a restart forgets are timeout keys holding the
+    empty string in the node's cache, and the repaired code treats those like missing keys. *)
+Theorem C06_restart_invariant : forall w q st items,
+  reach w st -> run cfg_fixed w q (restart st) items = run cfg_fixed w q st items.
+Proof. exact restart_invariant. Qed.
+Print Assumptions C06_restart_invariant.
+
+(** the same for whole histories and for every configuration the judge may use on the current tree
+    (any setting of the other flags): deleting all restarts from a history leaves the trace unchanged *)
+Theorem C06_restart_invariant_history : forall cfg w q items,
+  d_tl_empty_head cfg = false -> run cfg w q state_init items = run cfg w q state_init (strip items).
+Proof. exact restart_invariant_history. Qed.
+Print Assumptions C06_restart_invariant_history.
+
+(** in particular a pending timeout survives *)
+Theorem C06_restart_keeps_armed : forall st i hh,
   (forall x, s_ph st x = true -> tm_tl (s_tm st) x = Some [TEmpty]) ->
   armed (s_tm st) (s_h st) i hh -> armed (s_tm (restart st)) (s_h (restart st)) i hh.
 Proof.
@@ -95,7 +127,7 @@ Proof.
   destruct (s_ph st hh) eqn:E; [|exact El]. rewrite (Hph hh E) in El. inversion El; subst.
   destruct Hin as [Hin | []]. discriminate.
 Qed.
-Print Assumptions C06_restart_keeps_armed_partial.
+Print Assumptions C06_restart_keeps_armed.
 
 (** what a pier is told of TimeoutCounter is exactly what the block's metadata lists for it *)
 Theorem C06_router_faithful : forall d b m, indices_ok b m = true ->
@@ -146,6 +178,19 @@ Theorem C06_tl_empty_head_refuted :
   prop_on_model 6 only_empty_head w2 q2 hist_empty_head = Some false /\
   prop_on_model 6 cfg_fixed w2 q2 hist_empty_head = Some true.
 Proof. split; vm_compute; reflexivity. Qed.
+
+(** ... and with that flag a restart is observable: request and receipt in one block leave the empty
+    string for height 6 in the node's cache only; a group registered there afterwards never fires —
+    unless the node restarted in between (the cache is gone, the key is written afresh) *)
+Definition hist_restart : list item :=
+  [IBlock [req 1 2 1 3; rcp 1 2 1 1]; IRestart; IBlock [greq 1 3 1 2 7 1]; IBlock []; IBlock []; IBlock []].
+Theorem C06_restart_tl_empty_head_refuted :
+  (option_map (map o_to) (run only_empty_head w2 q2 state_init hist_restart)
+    = Some [[]; []; []; [(1, [TTx (1, 3, 1)])]; []]) /\
+  (option_map (map o_to) (run only_empty_head w2 q2 state_init (strip hist_restart))
+    = Some [[]; []; []; []; []]) /\
+  (run cfg_fixed w2 q2 state_init hist_restart = run cfg_fixed w2 q2 state_init (strip hist_restart)).
+Proof. split; [|split]; vm_compute; reflexivity. Qed.
 
 (** Ordered = false destination (behaviour of the code, flag on): an accepted request with T > 0
     is never registered, so it never times out *)
